@@ -11,7 +11,7 @@ from bsvc import contracts as C, speclib, terms as tm
 from bsvc.terms import REAL, INT
 from bsvc.values import Obj, Arr, to_term
 
-PROPS = ['C01', 'C03']
+PROPS = ['C01', 'C03', 'C11']
 NAMES = 'ABCD'
 
 
